@@ -273,9 +273,14 @@ def grow_protocol(ctx):
     chain(ctx, rid, V + "do_grow", [OLD_LOCK, COPY], mode="nobefore", label="lock-all<copy",
           why="all buckets of the old block must be locked before the first item is moved")
     chain(ctx, rid, V + "do_grow", [COPY, PUBLISH], mode="nobefore", label="copy<publish", why="the new block is published only when it is complete")
-    chain(ctx, rid, V + "do_grow", [PUBLISH, {"k": "call", "field": "resize_lock", "op": "store", "desc": "release resize lock (release order)",
-                                              "pred": lambda fn, nid: fn.atomic(nid)["orders"][0] in ("release", "seq_cst")}], label="publish<unlock-resize",
-          why="waiting threads re-read data_block after the resize lock is released")
+    for fn in flow._shapes(ctx, V + "do_grow"):
+        pubs = flow.find(fn, PUBLISH)
+        copies = flow.find(fn, COPY)
+        unl = [e for e in flow.find(fn, {"k": "call", "field": "resize_lock", "op": "store"}) if any(fn.event_reaches(c, e) for c in copies)]
+        ok = bool(pubs) and bool(unl) and all(any(fn.before(p_, u) for p_ in pubs) for u in unl)
+        ctx.check(ok, rid, V + "do_grow#publish<unlock-resize", "the resize lock is released (after copying) only after the new block was published",
+                  "the resize lock can be released after the rehash without/ before publishing the new block: waiting threads re-read data_block after the resize lock "
+                  "is released and continue on the old block", fn.where(unl[0]) if unl else fn.where(), fn=fn)
     for fn in flow._shapes(ctx, V + "do_grow"):
         # destination index: (rehash(key) & new_block->mask) - a '&' node with the mask field as one operand and the recomputed hash as the other
         ands = [e for e, n_ in enumerate(fn.nodes) if n_["k"] == "bin" and n_["op"] in ("&", "%") and any(fn.nodes[k]["k"] == "member" and fn.nodes[k].get("leaf") == "mask" for k in fn.kids(e))]
